@@ -656,6 +656,11 @@ func cmdCheck(args []string) {
 	os.MkdirAll(evDir, 0o755)
 	b, _ := json.MarshalIndent(ev, "", " ")
 	os.WriteFile(filepath.Join(evDir, prop+".json"), b, 0o644)
+	if violations > 0 {
+		// a natively reproduced violation is the verdict, even if it also made later parts of a harness
+		// unreachable (vacuity) or left other candidates unconfirmed
+		exit = 1
+	}
 	fmt.Printf("check %s %s: exit %d, %d paths, %d queries, %d violations, %d known, wall %.1fs\n", prop, tier, exit, totalPaths, totalQueries, violations, knownHit, time.Since(t0).Seconds())
 	if !*keep {
 		os.RemoveAll(work)
